@@ -131,14 +131,14 @@ package tmmemstore
 // ---- MirrorStore / StateMachineStore (C16, C04, C10) ----
 
 //@ func MirrorStore.SetNetworkHeightRound
-//@   property C16
+//@   property C16 C04 C10
 //@   option single-critical-section on
 //@   ensures result == nil && s.votingHeight == votingHeight && s.votingRound == votingRound &&
 //@       s.committingHeight == committingHeight && s.committingRound == committingRound
 //@   modifies s.votingHeight, s.votingRound, s.committingHeight, s.committingRound
 
 //@ func MirrorStore.NetworkHeightRound
-//@   property C16
+//@   property C16 C04 C10
 //@   option single-critical-section on
 //@   ensures initialized: s.votingHeight != 0 ==> err == nil && votingHeight == s.votingHeight && votingRound == s.votingRound &&
 //@       committingHeight == s.committingHeight && committingRound == s.committingRound
@@ -237,3 +237,18 @@ package tmmemstore
 //@   ensures stored: result == nil && (height in s.precommits) && (round in s.precommits[height]) && s.precommits[height][round] == proofs
 //@   ensures other-heights-untouched: forall h uint64 :: h != height && old(h in s.precommits) ==> (h in s.precommits) && s.precommits[h] == old(s.precommits[h])
 //@   modifies heap
+
+// A replayed header is refused only because a proposed header with the same hash is stored for that height; in particular
+// saving the same replayed header again (the redelivery after a stop between this write and the next one) succeeds (C10).
+//@ func RoundStore.SaveRoundReplayedHeader
+//@   property C16 C10
+//@   option single-critical-section on
+//@   requires s.replayedHeaders != nil
+//@   ensures refused-only-for-a-proposed-header-with-that-hash: result != nil ==> istype(result, tmstore.OverwriteError) && (h.Height in s.phs) &&
+//@       (exists r uint32 :: (r in s.phs[h.Height]) && (bytes(h.Hash) in s.phs[h.Height][r]))
+//@   ensures appended-on-success: result == nil ==> (h.Height in s.replayedHeaders) &&
+//@       len(s.replayedHeaders[h.Height]) == old(len(s.replayedHeaders[h.Height])) + 1 &&
+//@       s.replayedHeaders[h.Height][old(len(s.replayedHeaders[h.Height]))] == h
+//@   ensures earlier-replayed-headers-kept: forall i int :: 0 <= i && i < old(len(s.replayedHeaders[h.Height])) ==> s.replayedHeaders[h.Height][i] == old(s.replayedHeaders[h.Height][i])
+//@   ensures other-heights-untouched: forall x uint64 :: x != h.Height ==> (x in s.replayedHeaders) == old(x in s.replayedHeaders) && s.replayedHeaders[x] == old(s.replayedHeaders[x])
+//@   modifies s.replayedHeaders[*]
